@@ -286,6 +286,52 @@ impl Hist {
         Ok(())
     }
 
+    /// Extends a branch the node has left (its blocks were verified while they were on the main chain)
+    /// until the node switches back to it: the attached part of that reorganisation starts with
+    /// already-verified blocks.
+    pub fn revive(&mut self, rng: &mut Rng, obs: &mut dyn FnMut(&Hist, &Change)) -> Result<(), String> {
+        use ckb_store::ChainStore;
+        let main: HashSet<u64> = self.main_chain().into_iter().collect();
+        // abandoned, previously verified blocks without a known child
+        let has_child: HashSet<Byte32> = self.blocks.iter().map(|b| b.parent_hash()).collect();
+        let cands: Vec<BlockView> = self.blocks.iter().filter(|b| {
+            !main.contains(&self.block_id[&b.hash()]) && !has_child.contains(&b.hash())
+                && self.node().shared.store().get_block_ext(&b.hash()).map(|e| e.verified == Some(true)).unwrap_or(false)
+        }).cloned().collect();
+        if cands.is_empty() { return self.extend(rng, obs); }
+        let tip = rng.pick(&cands).clone();
+        // path from genesis to that block
+        let mut path = vec![tip.clone()];
+        loop {
+            let p = path.last().unwrap().parent_hash();
+            match self.block_id.get(&p) { Some(0) | None => break, Some(id) => path.push(self.block_by_id(*id)) }
+        }
+        path.reverse();
+        let builder = Node::temp(&self.consensus);
+        for b in &path { builder.process(b).map_err(|e| format!("replay of an abandoned branch on builder: {e}"))?; }
+        let old_main: Vec<BlockView> = self.main_chain().iter().skip(1).map(|id| self.block_by_id(*id)).collect();
+        let mut switched = false;
+        for _ in 0..14 {
+            let b = self.build_next(rng, &builder, false);
+            builder.process(&b).map_err(|e| format!("builder rejected its own block: {e}"))?;
+            let before = self.main_chain();
+            self.jops.push(json!({"revive_block": {"block": self.block_id[&b.hash()], "on_abandoned_block": self.block_id[&tip.hash()], "height": b.number(), "txs": b.transactions().len() - 1}}));
+            note_history(&self.jops);
+            self.node().process(&b).map_err(|e| format!("a valid block on a revived branch was rejected: {e}"))?;
+            if let Some(c) = self.change_since(&before, "reorganisation back to a branch that was verified before") {
+                if !switched {
+                    switched = true;
+                    *self.stats.entry("reorgs_back_to_verified_branch".into()).or_default() += 1;
+                }
+                obs(self, &c);
+            }
+            if switched && rng.chance(1, 2) { break; }
+        }
+        builder.stop();
+        if switched { let now: HashSet<Byte32> = self.main_chain().iter().map(|id| self.block_by_id(*id).hash()).collect(); self.stash.extend(old_main.into_iter().filter(|b| !now.contains(&b.hash()))); }
+        Ok(())
+    }
+
     pub fn restart(&mut self, obs: &mut dyn FnMut(&Hist, &Change)) {
         let node = self.node.take().unwrap();
         node.stop();
@@ -310,7 +356,8 @@ impl Hist {
     /// one random step
     pub fn random_step(&mut self, rng: &mut Rng, obs: &mut dyn FnMut(&Hist, &Change)) -> Result<(), String> {
         let tip = self.node().tip().number();
-        match rng.below(12) {
+        match rng.below(14) {
+            12 | 13 if tip >= 2 => self.revive(rng, obs),
             0..=5 => {
                 for _ in 0..rng.range(1, 4) { self.extend(rng, obs)?; }
                 Ok(())
